@@ -1139,3 +1139,67 @@ func ropeMentions(r Rope, sub string, seen map[int]bool, rs map[Rope]bool) bool 
 	}
 	return true
 }
+
+// sync.Map: an association list per map object (sequential model, like the
+// mutexes). Key equality is decided by the solver where it is symbolic.
+type smEntry struct{ k, v Value }
+
+func (in *Interp) smKey(p Ptr) string { return fmt.Sprintf("%p/%v", p.obj, p.path) }
+
+func (in *Interp) smFind(p Ptr, key Value) int {
+	if in.syncMaps == nil {
+		in.syncMaps = map[string][]smEntry{}
+	}
+	es := in.syncMaps[in.smKey(p)]
+	for i := range es {
+		if in.p.Decide(in.valEq(es[i].k, key)) {
+			return i
+		}
+	}
+	return -1
+}
+
+func init() {
+	libModels["(*sync.Map).Load"] = func(in *Interp, fn *ssa.Function, args []Value) Value {
+		p := args[0].(Ptr)
+		if i := in.smFind(p, args[1]); i >= 0 {
+			return Tuple{in.syncMaps[in.smKey(p)][i].v, TTrue}
+		}
+		return Tuple{Iface{}, TFalse}
+	}
+	libModels["(*sync.Map).Store"] = func(in *Interp, fn *ssa.Function, args []Value) Value {
+		p := args[0].(Ptr)
+		k := in.smKey(p)
+		if i := in.smFind(p, args[1]); i >= 0 {
+			in.syncMaps[k][i].v = args[2]
+		} else {
+			in.syncMaps[k] = append(in.syncMaps[k], smEntry{args[1], args[2]})
+		}
+		return nil
+	}
+	libModels["(*sync.Map).LoadOrStore"] = func(in *Interp, fn *ssa.Function, args []Value) Value {
+		p := args[0].(Ptr)
+		k := in.smKey(p)
+		if i := in.smFind(p, args[1]); i >= 0 {
+			return Tuple{in.syncMaps[k][i].v, TTrue}
+		}
+		in.syncMaps[k] = append(in.syncMaps[k], smEntry{args[1], args[2]})
+		return Tuple{args[2], TFalse}
+	}
+	del := func(in *Interp, fn *ssa.Function, args []Value) Value {
+		p := args[0].(Ptr)
+		k := in.smKey(p)
+		if i := in.smFind(p, args[1]); i >= 0 {
+			old := in.syncMaps[k][i].v
+			es := append([]smEntry(nil), in.syncMaps[k][:i]...)
+			in.syncMaps[k] = append(es, in.syncMaps[k][i+1:]...)
+			return Tuple{old, TTrue}
+		}
+		return Tuple{Iface{}, TFalse}
+	}
+	libModels["(*sync.Map).LoadAndDelete"] = del
+	libModels["(*sync.Map).Delete"] = func(in *Interp, fn *ssa.Function, args []Value) Value {
+		del(in, fn, args)
+		return nil
+	}
+}
